@@ -179,6 +179,7 @@ func verifCapFork(b bool)               {}
 func verifUnwind(n int)                 {}
 func verifUnwindAssume(n int)           {}
 func verifTrackGlobals(b bool)          {}
+func verifExactTables(b bool)           {}
 func verifGlobalWrites() int            { return 0 }
 
 func verifLatin1(s string) string {
